@@ -36,7 +36,7 @@ export VERIF_BIN="$PWD/bin/vcheck" VERIF_MODFLAG="$MODFLAG"
 SCRATCH="$(mktemp -d "${VERIF_SCRATCH_BASE:-/var/tmp}/verif-$ID-XXXXXX")"
 trap 'rm -rf "$SCRATCH"' EXIT
 export VERIF_SCRATCH="$SCRATCH" TMPDIR="$SCRATCH"
-if [ "$MODE" = thorough ]; then LIMIT="${VERIF_WATCHDOG:-5400}"; else LIMIT="${VERIF_WATCHDOG:-900}"; fi
+if [ "$MODE" = thorough ]; then LIMIT="${VERIF_WATCHDOG:-14400}"; else LIMIT="${VERIF_WATCHDOG:-2400}"; fi
 timeout -s QUIT -k 20 "$LIMIT" bin/vcheck "$ID" "$MODE" "$@" 2>"$SCRATCH/stderr.log"
 rc=$?
 if [ $rc -ne 0 ] && [ $rc -ne 1 ]; then
